@@ -490,6 +490,9 @@ class NestedFrame(pd.DataFrame):
             # The packed column has the index of df itself, row for row: attach it by position.
             # (An index join would multiply the rows that share a label.)
             out_df = df[base_columns].copy()
+            # the input may be a plain pandas DataFrame: the result is a NestedFrame all the same
+            if not isinstance(out_df, NestedFrame):
+                out_df = NestedFrame(out_df)
             out_df[name] = packed_df
             return out_df
         # or just return the packed_df as a nestedframe if no base cols
